@@ -194,6 +194,11 @@ def gen_object(ctx, otype):
         alg = r.choice([3, 3, 2, 0x10])
         ln = r.choice(SYM_SIZES[alg])
         o = {'kft': 1, 'value': ctx.rbytes(ln // 8), 'alg': alg, 'len': ln}
+        if otype == 'SymmetricKey' and r.random() < 0.06:
+            # legal but unusual: Transparent Symmetric Key, whose key
+            # material is a structure {Key: bytes}
+            o['kft'] = 7
+            o['km_struct'] = True
         if otype == 'SplitKey':
             o.update({'parts': r.choice([2, 3, 5]), 'part_id': r.choice(
                 [1, 2]), 'threshold': r.choice([1, 2]),
